@@ -18,7 +18,10 @@ lane() {
   local k=0
   for d in "${dirs[@]}"; do
     k=$((k+1)); [ $(( k % LANES )) -eq $(( i % LANES )) ] || continue
-    id=$(echo "$d" | sed -E 's/^(R[0-9]+-)?(C[0-9]+)-[0-9]+$/\2/')
+    # the check to run: the one recorded in the last trial of meta.json (normally the owning
+    # property's check; two round-7 changes are representation defects owned by another check)
+    id=$(python3 -c "import json,sys; m=json.load(open(sys.argv[1])); t=m.get('trials') or [{}]; print(t[-1].get('check') or m.get('property'))" "$ROOT/seeded/$d/meta.json" 2>/dev/null)
+    [ -n "$id" ] || id=$(echo "$d" | sed -E 's/^(R[0-9]+-)?(C[0-9]+)-[0-9]+$/\2/')
     git -C "$L/repo" checkout -q -- . ; git -C "$L/repo" clean -fdq
     if ! git -C "$L/repo" apply "$ROOT/seeded/$d/patch.diff" 2>/dev/null; then echo "| $d | $id | PATCH DOES NOT APPLY to the current tree |" >> "$L/out"; continue; fi
     out=$(cd "$L/verif" && VERIF_TARGET_BASE="$L/tgt" VERIF_CHECK_TIMEOUT=1200 scripts/check.sh "$id" quick 2>&1); rc=$?
